@@ -5,7 +5,7 @@ spec/ProofChain.tla   symbolic ICS-23: an existence proof is (key, value, recomp
                       Algorithmic layer = the loop of ProofChain::verify_membership as get_verified_balance_impl calls it;
                       property layer = Linked(value, app hash): the account key really maps to the value in the state the
                       header commits to.  Sound: reported as verified => Linked.
-  MC    TLC evaluates Sound and Complete (honest answers verify) over all 69 904 enumerated answers (0..3 ops out of 16
+  MC    TLC evaluates Sound and Complete (honest answers verify) over all 78 216 enumerated answers (0..3 ops out of 16
         honest / relabelled / rewritten / flipped / mistyped ops, 4 returned values, 2 app hashes), for the design the
         property asks for; a second run with AsIsEmptyValue = TRUE reproduces the recorded finding in the model.
   ->B   Gen_ProofChain prints every answer with the demanded verdict; h-grpc builds real IAVL-style and simple-merkle
@@ -24,9 +24,9 @@ ENTRIES = {
                 "ICS-23 existence proofs (key, value, recomputed root, tree format) drawn from an honest world (bank store "
                 "inside the multistore committed by the header's app hash) and a forged one; it mirrors the loop of "
                 "ProofChain::verify_membership and states the property as `reported as verified => the account's bank key "
-                "maps to the returned value in the state committed by the app hash`. TLC checks this over all 69 904 "
+                "maps to the returned value in the state committed by the app hash`. TLC checks this over all 78 216 "
                 "combinations of 0..3 ops (honest, other account's entry, relabelled / rewritten keys, rewritten values, "
-                "flipped proof nodes, swapped / missing / extra ops, wrong or unknown proof type, forged-world proofs), 4 "
+                "flipped proof nodes, operations off the ProofSpec that re-slice committed leaf bytes (same root, never-stored value), swapped / missing / extra ops, wrong or unknown proof type, forged-world proofs), 4 "
                 "returned values (honest, other account's, forged, empty), 2 app hashes and 2 echoed response keys (the requested one, another account's), and emits each with the verdict "
                 "the property demands. The harness builds, per case, random real stores (IAVL-style bank tree with 2..11 "
                 "records, simple-merkle multistore with up to 16 stores), real ICS-23 leaf/inner ops in the iavl_spec and "
@@ -34,7 +34,11 @@ ENTRIES = {
                 "fake gRPC node and calls the public GrpcClient::get_verified_balance with a header carrying the chosen "
                 "app hash; an answer that must not verify but is reported as a verified balance is a violation.",
         "design_ref": "7 C45",
-        "note": "Collision freedom of SHA-256 and the ics23 crate's hashing are the trusted base (the model treats roots as "
+        "note": "Every answer is judged twice: through the public get_verified_balance (reported as verified?) and through "
+                "ProofChain::verify_membership itself (hook celestia_grpc::verif, cfg(eigerco_lumina_verif)); the second is "
+                "needed for proofs whose operations leave the ProofSpec and re-slice committed bytes: the values they can "
+                "'prove' are binary, so the client fails to parse them as an amount after verification and never reports them. "
+                "Collision freedom of SHA-256 and the ics23 crate's hashing are the trusted base (the model treats roots as "
                 "injective). Only existence proofs are enumerated (no batch / compressed / non-existence proofs). Rejection "
                 "of an answer that is in fact backed by the app hash (e.g. honest proof with an extra op) is allowed; an "
                 "honest answer that is rejected is drift, and a run in which no honest answer verifies is a vacuity error. "
@@ -60,7 +64,7 @@ def run(ck):
     # 1. the design the property asks for satisfies it on every enumerated answer
     cfg = ck.cfg_with("MC_ProofChain.cfg", {"AsIsEmptyValue": "FALSE"})
     r = ck.tlc_mc("MC_ProofChain", cfg, tag="mc")
-    if r["distinct_states"] < 60000:
+    if r["distinct_states"] < 70000:
         raise vf.ToolError("vacuity: MC_ProofChain enumerated too few answers")
     # the code as it is: the recorded finding must reproduce in the model
     cfg2 = ck.cfg_with("MC_ProofChain.cfg", {"AsIsEmptyValue": "TRUE"}, name="MC_ProofChain_asis.cfg")
@@ -70,6 +74,8 @@ def run(ck):
     cases, n = ck.tlc_gen("Gen_ProofChain", gen_cfg, "cases.ndjson", count_stats=False)
     s = _replay(ck, hb, cases, "replay")
     ex = s.get("extra", {})
+    if ex.get("honest_accepted_by_verify_membership", 0) == 0:
+        raise vf.ToolError("vacuity: no honest chain was accepted by ProofChain::verify_membership (hook)")
     if ex.get("honest_accepted", 0) == 0:
         raise vf.ToolError("vacuity: no honest answer was reported as verified (proof construction or client broken)")
     if ex.get("queries_for_the_right_key", 0) != s["props"]["C45"]["evaluations"]:
